@@ -212,6 +212,13 @@ def run_step(c, P):
                 c.solver.add(z3.And(z3.ToReal(k2) * R(r) >= R(tau), (z3.ToReal(k2) - 1) * R(r) < R(tau)))
                 c.prove(R(n2) == z3.ToReal(k2) * R(r), 'C15 step: next ping instant is not the next multiple of ping_rate at or after now',
                         sig='C15 step: next_ping')
+            else:
+                # concrete replay: the same obligation, evaluated exactly on rationals
+                import math
+                from fractions import Fraction
+                fr, ftau = Fraction(engine.Q(r)), Fraction(engine.Q(tau))
+                c.prove(R(n2) == R(math.ceil(ftau / fr) * fr), 'C15 step: next ping instant is not the next multiple of ping_rate at or after now',
+                        sig='C15 step: next_ping')
             c.prove(R(n2) >= R(tau), 'C15 step: next ping instant lies in the past', sig='C15 step: next_ping')
         else:
             c.prove(R(n2) == R(n), 'C15 step: ping schedule changed without a Ping being due')
